@@ -367,6 +367,24 @@ def execute(case, scratch):
                 direct = {'error': '[Errno 2] No such file or directory', 'type': 'FileNotFoundError'}
             else:
                 direct = in_proc(root, ctlp, lambda: load_file_direct(cmd['kind'], os.path.join(root, target)), reads=cmd.get('reads'))
+            if 'ok' in direct and cmd['class'] == 'utf-16':
+                # the loader read the UTF-16 file: then it read what the file says (the same text saved as UTF-8 is the reference)
+                wsnap = util.snap_from_json(cmd['world'])
+                key = target if target in wsnap else util.resolve_path(util.links_of(wsnap), target)
+                ref_path = os.path.join(root, os.path.dirname(target), 'as-utf8-' + os.path.basename(target))
+                with open(ref_path, 'wb') as fh:
+                    fh.write(wsnap[key][2:].decode('utf-16-le').encode('utf-8'))
+                got = in_proc(root, ctlp, lambda: load_file_struct(cmd['kind'], os.path.join(root, target)))
+                ref = in_proc(root, ctlp, lambda: load_file_struct(cmd['kind'], ref_path))
+                os.unlink(ref_path)
+                count['fired.utf-16'] = count.get('fired.utf-16', 0) + 1
+                if 'ok' in ref and util.canon(got) != util.canon(ref):
+                    violations.append({'invariant': 'REP', 'signature': {'kind': cmd['kind'], 'observer': 'loader', 'class': 'utf-16'},
+                                       'witness': '%s saved as UTF-16 (with byte-order mark) is accepted by the loader but not read for what it says: %s ; '
+                                                  'the same text as UTF-8: %s' % (target, util.canon(got)[:250], util.canon(ref)[:250]),
+                                       'schedule': {'property': ID, 'case': dict(case, files=[], commands=[cmd])}})
+                log.append(['cmd-utf16-accepted', util.digest(got)])
+                continue
             if 'ok' in direct:
                 if cmd['class'] in ('EACCES', 'EIO') and cmd['kind'] in ('rules', 'views'):
                     # the operating system refuses to hand out the file's content (for good: every attempt fails): whatever the
@@ -527,6 +545,11 @@ def build_case(rng, tier):
             c = rng.choice(pool)
             cls = c['class']
             snap[target] = c['text'].encode('utf-8')
+        elif r < 0.62 and kind in ('rules', 'views'):
+            # saved as "Unicode" by a Windows editor: UTF-16 with a byte-order mark.  Either the loader cannot read it - then that is
+            # reported - or it reads it for what it says
+            cls = 'utf-16'
+            snap[target] = b'\xff\xfe' + snap[target].decode('utf-8').encode('utf-16-le')
         elif r < 0.7:
             cls = 'invalid-utf8'
             data = snap[target]
